@@ -106,8 +106,11 @@ def step (s : St L) (c : Char) : Res L :=
   else if s.field == .comment && c != ']' then .cont { s with curComment := pushc s.curComment c }
   else if isWs c && !s.quotes then .cont s
   else match classify c with
-    | .quote => .cont { s with quotes := !s.quotes,
-                                curName := if s.field == .name then pushc s.curName c else s.curName }
+    | .quote =>
+      -- (repaired) a quote only delimits part of a NAME; in a branch length it is an ordinary character of the
+      -- lexeme (which the float parser then refuses); in a comment it never gets here
+      if s.field == .name then .cont { s with quotes := !s.quotes, curName := pushc s.curName c }
+      else stepField s c
     | .lbr => .cont { s with field := .comment }
     | .rbr => .cont { s with field := .name }
     | .colon => .cont { s with field := .length }
